@@ -102,7 +102,7 @@ class RecList(list):
 def atomicity_cases(rng, n):
     from props import logix_common as L
     from cpppo.server.enip import logix, device
-    tags = [dict(name='T', ty='DINT', scalar=False, n=12, addr=None, init=[('i', 0)] * 12)]
+    tags = [dict(name='T', ty='DINT', scalar=False, n=12, addr=(0x99, 1, 1), init=[('i', 0)] * 12)]
     device.lookup_reset(); logix.setup_reset()
     im = L.Impl(488, tags)
     problems = []
@@ -114,7 +114,18 @@ def atomicity_cases(rng, n):
         att.default = rec
         for i in range(n):
             s = rng.randrange(0, 12); ln = rng.randrange(1, 12 - s + 1)
-            if rng.random() < 0.5:
+            k = rng.random()
+            if k < 0.12:
+                # the generic attribute services on the tag's class/instance/attribute address: the whole array at once
+                s, ln = 0, 12
+                r = ('get', ('num', 0x99, 1, 1, None))
+                sched.append((i % 3, 1, s, ln))
+            elif k < 0.24:
+                s, ln = 0, 12
+                vals = [rng.randrange(-9, 9)] * 12 if rng.random() < 0.6 else [rng.randrange(-99, 99) for _ in range(12)]
+                r = ('set', ('num', 0x99, 1, 1, None), list(struct.pack('<12i', *vals)))
+                sched.append((i % 3, 0, s, vals))
+            elif k < 0.6:
                 vals = [rng.randrange(-9, 9)] * ln if rng.random() < 0.6 else [rng.randrange(-99, 99) for _ in range(ln)]
                 r = ('writef', ('sym', 'T', s), 196, ln, 0, [('i', v) for v in vals])
                 sched.append((i % 3, 0, s, vals))
@@ -124,7 +135,7 @@ def atomicity_cases(rng, n):
             rec.log.clear()
             b, d = im.request(r)
             acc = [x for x in rec.log if x[1] == 'slice' or x[0] == 'set']
-            kind = 'set' if r[0] == 'writef' else 'get'
+            kind = 'set' if r[0] in ('writef', 'set') else 'get'
             data = [x for x in rec.log if x[0] == kind]
             if ln > 1 and (len(data) != 1 or data[0][1] != 'slice'):
                 problems.append(dict(request=L.describe_req(r), accesses=rec.log[:12],
@@ -257,7 +268,14 @@ def run(ctx):
     for pm in stress_problems[:3]:
         nbad += 1
         ctx.violation(dict(stress=pm, sessions=4 if not ctx.thorough else 6, switch_interval=1e-5), 'concurrent sessions: ' + pm)
-    cov['evaluations'] = NA + len(sched) + 1
+    # D. sessions sharing one forwarded route (front simulator -> delaying proxy -> back simulator): the reply to a forwarded request
+    # that timed out for one session must never be handed to the next session's forwarded request
+    from props import c06
+    for pm in c06.routed_scenario()[:2]:
+        nbad += 1
+        ctx.violation(dict(scenario='two sessions forwarding over one shared route, the first one\'s request timing out', problem=pm),
+                      'sessions sharing a route: ' + pm)
+    cov['evaluations'] = NA + len(sched) + 2
     cov['distinct_nontrivial'] = nlog + len(sched)
     cov['exhaustive'] = False
     cov['rule'] = ('A: %d generated event trees (3 threads, up to 14 closures, registrations and parser exits nested up to depth 2 inside running closures) through the real '
